@@ -5,6 +5,7 @@ go 1.16
 require (
 	github.com/ipfs/go-cid v0.0.7
 	github.com/ipfs/go-ipfs-chunker v0.0.5
+	github.com/ipfs/go-ipfs-cmds v0.6.0
 	github.com/ipfs/go-ipfs-files v0.0.8
 	github.com/ipfs/go-ipld-cbor v0.0.5
 	github.com/ipfs/go-merkledag v0.3.2
